@@ -5,6 +5,8 @@ and a dict flight-id -> position.  Every rule logs itself (replayable)."""
 
 from __future__ import annotations
 
+import os
+
 from hypothesis import strategies as st
 from hypothesis.stateful import invariant, precondition, rule
 
@@ -27,6 +29,13 @@ BULK = {
     'tag': 77,
 }
 OTHER = {'fields': [{'dims': 'TP', 'type': 'f4', 'required': True}], 'tag': 78}
+# an additional field set with one required per-trajectory scalar (no default), values derived from the trajectory seed
+REQ = {'fields': [{'dims': 'T', 'type': 'f8', 'required': True}], 'tag': 79, 'auto': True}
+# The order of a trajectory's fields follows the iteration order of a *set* of field-set names (string hashes;
+# PYTHONHASHSEED=0 here).  Of these two variants the first sorts before the base field set, the second after it, so that
+# an unset required value is met both before and after the unset optional base fields (name, flight_id).
+REQ2 = {'fields': [{'dims': 'T', 'type': 'f8', 'required': True}], 'tag': 83, 'auto': True}
+REQS = [REQ, REQ2]
 FILE_SPECIES = ['CO2', 'H2O']
 
 
@@ -70,6 +79,8 @@ class StoreMachine(LoggedMachine):
 
         sc.register_fieldset(BULK)
         sc.register_fieldset(OTHER)
+        sc.register_fieldset(REQ)
+        sc.register_fieldset(REQ2)
         TrajectoryStore.active_in_thread = None
         self.TS = TrajectoryStore
         self.dir = self.ctx.fresh_dir()
@@ -80,6 +91,7 @@ class StoreMachine(LoggedMachine):
         self.ids: dict[int, int] = {}
         self.identified = None
         self.with_bulk = None
+        self.with_req = False
         self.session_start = 0
         self.cache_mb = None
         self.finished = False
@@ -91,7 +103,7 @@ class StoreMachine(LoggedMachine):
     # ------------------------------------------------------------ helpers
     @property
     def fdefs(self):
-        return [BULK] if self.with_bulk else []
+        return ([BULK] if self.with_bulk else []) + ([REQS[int(self.with_req) - 1]] if self.with_req else [])
 
     def _unlog(self):
         if isinstance(self.log, list) and self.log:
@@ -238,12 +250,13 @@ class StoreMachine(LoggedMachine):
     # ------------------------------------------------------------ rules
     @precondition(lambda self: not self.finished and self.store is None and not self.path.exists() and not self.model)
     @rule(cache_mb=st.sampled_from([1, 1, 2, 2048]), identified=st.booleans(), with_bulk=st.booleans(),
-          memory=st.booleans())
-    def create(self, cache_mb, identified, with_bulk, memory):
-        self.op('create', cache_mb=cache_mb, identified=identified, with_bulk=with_bulk, memory=memory)
+          memory=st.booleans(), with_req=st.integers(0, 2))
+    def create(self, cache_mb, identified, with_bulk, memory, with_req=False):
+        self.op('create', cache_mb=cache_mb, identified=identified, with_bulk=with_bulk, memory=memory, with_req=with_req)
         self.ctx.evaluations += 1
         self.identified = True if self.ALWAYS_IDENTIFIED else identified
         self.with_bulk = with_bulk
+        self.with_req = int(with_req)
         self.cache_mb = cache_mb
         self.TS.active_in_thread = None
         if memory:
@@ -489,7 +502,7 @@ class StoreMachine(LoggedMachine):
             self._fail('iterate.across_add', f'an iteration started before an add yielded {len(got)} trajectories, the store (and a list) has {len(self.model)}',
                        self.mode_class())
 
-    @precondition(lambda self: not self.finished and self.store is not None and self.mode in ('w', 'a'))
+    @precondition(lambda self: not self.finished and self.store is not None and self.mode in ('w', 'a', 'mem'))
     @rule()
     def sync(self):
         self.op('sync')
@@ -553,6 +566,63 @@ class StoreMachine(LoggedMachine):
         if self.rejected_then_added == 2:
             self.rejected_then_added = 3
             self.flags.add('rejected_then_added_then_reopened')
+
+    @precondition(lambda self: self.ENABLE_FAULTS and not self.finished and self.store is None and self.path.exists()
+                  and bool(self.model))
+    @rule(seed=st.integers(0, 2**20), raw_id=sc.FLIGHT_ID, k=st.integers(1, 2))
+    def with_block_escaping_rejection(self, seed, raw_id, k=1):
+        """The documented way of using a store is a `with` block.  k successful additions in an append session, then a
+        rejected one whose error leaves the block: the store is closed by the context manager; afterwards the file holds
+        exactly the successful additions, retrievable by index and by flight id."""
+        self.op('with_block_escaping_rejection', seed=seed, raw_id=raw_id, k=k)
+        self.ctx.evaluations += 1
+        self.TS.active_in_thread = None
+        added = []
+        escaped = False
+        try:
+            with self.TS.append(base_file=self.path, cache_size_mb=2048) as s:
+                for j in range(k):
+                    d = {'n': 4 + j, 'seed': seed + j, 'name': None, 'flight_id': None, 'extras': {}}
+                    if self.with_bulk:
+                        d['extras'][sc.fs_name(BULK)] = _bulk_values(seed + j, FILE_SPECIES[:1])
+                    if self.identified:
+                        d['flight_id'] = self._fresh_id(raw_id + 17 * j)
+                    s.add(sc.build_traj(d, self.fdefs))
+                    self.model.append(d)
+                    if self.identified:
+                        self.ids[d['flight_id']] = len(self.model) - 1
+                    added.append(d)
+                bad = dict(added[-1], flight_id=(self._fresh_id(raw_id + 999) if self.identified else None))
+                t = sc.build_traj(bad, self.fdefs)
+                t._data['starting_mass'] = None
+                escaped = True
+                s.add(t)  # refused: the ValueError leaves the with block
+                escaped = False
+        except core.PASS_THROUGH:
+            raise
+        except Exception as e:  # noqa: BLE001
+            if not escaped:
+                self.ctx.fail_exc('with_block.valid_add', e, self.mode_class(), self.log)
+                return
+        else:
+            self._fail('add.invalid_accepted', 'invalid trajectory (required_none) was accepted inside a with block', 'required_none/with')
+            return
+        self.flags.add('with_block_escaping_rejection')
+        self.TS.active_in_thread = None
+        try:
+            self.store = self.TS.open(base_file=self.path)
+        except core.PASS_THROUGH:
+            raise
+        except Exception as e:  # noqa: BLE001
+            self.ctx.fail_exc('reopen', e, 'after_with_block', self.log)
+            return
+        self.mode = 'r'
+        self.session_start = len(self.model)
+        self._check_len('after_with_block')
+        for i in range(max(0, len(self.model) - k - 1), len(self.model)):
+            self._check_item(i, 'after_with_block')
+        if self.ENABLE_LOOKUP:
+            self._check_ids('after_with_block', all_ids=True)
 
     @precondition(lambda self: not self.finished and self.store is not None and self.mode == 'mem' and self.model)
     @rule()
@@ -675,9 +745,17 @@ class StoreMachine(LoggedMachine):
             vals = [dict(v) for v in desc['extras'][sc.fs_name(BULK)]]
             vals[0] = {'sseed': dict(vals[0]['sseed'], NOx=99)}
             desc = dict(desc, extras={sc.fs_name(BULK): vals})
+        late = kind == 'required_none' and desc['seed'] % 2 == 0 and (
+            self.with_req or (self.with_bulk and sc.fs_name(BULK) in desc['extras']))
+        if late:
+            # the missing required value sits in the additional field set, behind unset optional base fields (no name)
+            desc = dict(desc, name=None)
         t = sc.build_traj(desc, fdefs)
         if kind == 'required_none':
-            t._data['starting_mass'] = None  # what a never-assigned required scalar holds
+            # what a never-assigned required value holds
+            t._data[(sc.field_names(REQS[self.with_req - 1])[0] if self.with_req else sc.field_names(BULK)[4]) if late else 'starting_mass'] = None
+            if late:
+                self.flags.add('rejected_required_none_in_additional_fieldset')
         if kind in ('missing_fieldset', 'extra_fieldset') and not self.model and self.mode != 'a':
             # the first trajectory of a new store defines the schema: it is valid
             self._unlog()
@@ -695,6 +773,14 @@ class StoreMachine(LoggedMachine):
                 self.flags.add('rejected_in_append')
             if self.rejected_then_added == 0:
                 self.rejected_then_added = 1
+            # a rejected addition leaves the store exactly as it was - checked here and now, because the next
+            # successful addition may paper over a half-written record
+            got = len(self.store)
+            if got != len(self.model):
+                self._fail('rejected.len_changed', f'rejected addition ({kind}) changed len(store) from {len(self.model)} to {got} '
+                           f'(mode {self.mode})', f'{kind}/{self.mode_class()}')
+            if self.model:
+                self._check_item(len(self.model) - 1, 'after_rejection')
             return
         self._fail('add.invalid_accepted', f'invalid trajectory ({kind}) was accepted (mode {self.mode})', f'{kind}/{self.mode_class()}')
         # keep the model consistent with what the store did so later steps stay meaningful
@@ -808,14 +894,32 @@ class StoreMachine(LoggedMachine):
 # indices, repeated reopening, refusals followed by additions.
 
 
+FLIGHT_ID_SMALL_OR_BIG = st.one_of(st.integers(0, 40), sc.FLIGHT_ID)
+
+
 @st.composite
 def plan_strategy(draw, lookups=False, faults=False):
-    template = draw(st.sampled_from(['free', 'free', 'free', 'mem_overflow', 'append_evict']))
+    template = draw(st.sampled_from(['free', 'free', 'free', 'mem_overflow', 'append_evict'] + (['append_first_invalid'] if faults else [])))
+    if template == 'append_first_invalid':
+        # the very first operation of an append session (nothing read, nothing cached yet) is an addition that has to be
+        # refused; then ordinary use
+        def small():
+            return {'op': 'add_small', 'n': draw(st.integers(1, 20)), 'seed': draw(st.integers(0, 2**20)), 'raw_id': draw(FLIGHT_ID_SMALL_OR_BIG)}
+        inv = {'op': 'add_invalid', 'kind': draw(st.sampled_from(INVALID_KINDS)), 'n': draw(st.integers(1, 30)), 'seed': draw(st.integers(0, 2**20))}
+        s0 = {'mode': 'w', 'cache': draw(st.sampled_from([1, 2048])), 'ops': [small() for _ in range(draw(st.integers(1, 3)))]}
+        s1 = {'mode': 'a', 'cache': draw(st.sampled_from([1, 2048])), 'ops': [inv, small(), {'op': 'read_all', 'order': 'forward'}]}
+        if lookups:
+            s1['ops'].append({'op': 'lookup_all'})
+        s2 = {'mode': 'r', 'cache': 1, 'ops': [{'op': 'read_all', 'order': 'backward'}] + ([{'op': 'lookup_all'}] if lookups else [])}
+        if draw(st.booleans()):
+            s1['ops'].append({'op': 'with_escape', 'seed': draw(st.integers(0, 2**20)), 'raw_id': draw(FLIGHT_ID_SMALL_OR_BIG), 'k': draw(st.integers(1, 2))})
+        return {'plan': True, 'with_bulk': draw(st.booleans()), 'identified': draw(st.booleans()), 'with_req': draw(st.integers(0, 2)),
+                'sessions': [s0, s1, s2]}
     if template == 'mem_overflow':
         # an in-memory store that has to refuse bulky additions, then accepts small ones
         ops = [{'op': 'burst', 'k': draw(st.integers(3, 5)), 'seed': draw(st.integers(0, 2**20)), 'raw_id': draw(sc.FLIGHT_ID)},
                {'op': 'add_small', 'n': draw(st.integers(1, 20)), 'seed': draw(st.integers(0, 2**20)), 'raw_id': draw(sc.FLIGHT_ID)},
-               {'op': 'read_all', 'order': 'forward'}, {'op': 'iterate'},
+               {'op': 'read_all', 'order': 'forward'}, {'op': 'iterate'}, {'op': 'sync'}, {'op': 'read_all', 'order': 'backward'},
                {'op': 'burst', 'k': 2, 'seed': draw(st.integers(0, 2**20)), 'raw_id': draw(sc.FLIGHT_ID)},
                {'op': 'add_small', 'n': draw(st.integers(1, 20)), 'seed': draw(st.integers(0, 2**20)), 'raw_id': draw(sc.FLIGHT_ID)},
                {'op': 'read_all', 'order': 'backward'}, {'op': 'oob'}]
@@ -893,7 +997,8 @@ def plan_strategy(draw, lookups=False, faults=False):
             # the very first addition is refused (file name taken), the cause is removed, the store is used on
             sess['blocked_first'] = {'seed': draw(st.integers(0, 2**20)), 'raw_id': draw(sc.FLIGHT_ID)}
         sessions.append(sess)
-    return {'plan': True, 'with_bulk': draw(st.integers(0, 3)) > 0, 'identified': draw(st.booleans()), 'sessions': sessions}
+    return {'plan': True, 'with_bulk': draw(st.integers(0, 3)) > 0, 'identified': draw(st.booleans()), 'with_req': draw(st.integers(0, 2)),
+            'sessions': sessions}
 
 
 def run_plan(machine_cls, ctx: core.Ctx, plan: dict):
@@ -905,7 +1010,8 @@ def run_plan(machine_cls, ctx: core.Ctx, plan: dict):
     try:
         for k, sess in enumerate(plan['sessions']):
             if k == 0:
-                StoreMachine.create(m, sess['cache'], plan['identified'], plan['with_bulk'], sess['mode'] == 'mem')
+                StoreMachine.create(m, sess['cache'], plan['identified'], plan['with_bulk'], sess['mode'] == 'mem',
+                                    int(plan.get('with_req') or 0))
             else:
                 if m.store is not None:
                     StoreMachine.close(m)
@@ -961,7 +1067,7 @@ def run_plan(machine_cls, ctx: core.Ctx, plan: dict):
                 elif kind == 'oob':
                     StoreMachine.read_out_of_range(m, 0)
                     StoreMachine.read_out_of_range(m, 3)
-                elif kind == 'sync' and m.mode in ('w', 'a'):
+                elif kind == 'sync' and m.mode in ('w', 'a', 'mem'):
                     StoreMachine.sync(m)
                 elif kind == 'add_readonly' and m.mode == 'r':
                     StoreMachine.add_readonly(m, None, _desc={'n': 3, 'seed': 9, 'name': None, 'flight_id': None, 'extras': (
@@ -979,6 +1085,9 @@ def run_plan(machine_cls, ctx: core.Ctx, plan: dict):
                         m._lookup(fid, 'lookup_all')
                 elif kind == 'lookup_absent' and m.identified and m.ids and m.mode != 'mem':
                     StoreMachine.lookup_absent(m, op['raw'], op['rel'])
+                elif kind == 'with_escape' and m.ENABLE_FAULTS and m.model and m.mode in ('w', 'a') and m.path.exists():
+                    StoreMachine.close(m)
+                    StoreMachine.with_block_escaping_rejection(m, op['seed'], op['raw_id'], op.get('k', 1))
                 m.log = plan
                 if m.store is not None:
                     m.inv()
